@@ -245,6 +245,62 @@ func ruleCompletionCloses(p *Prog, r *Out) {
 			"when "+name+" reports the response complete the stream is not marked closed and closed: it keeps its table entry, its RequestCtx and its concurrency slot, and after MaxConcurrentStreams such responses every new stream is refused")
 		return true
 	})
+	// a stream the loop resets is closed there and then
+	resets := 0
+	ast.Inspect(fd.Body, func(n ast.Node) bool {
+		var list []ast.Stmt
+		switch x := n.(type) {
+		case *ast.BlockStmt:
+			list = x.List
+		case *ast.CaseClause:
+			list = x.Body
+		case *ast.CommClause:
+			list = x.Body
+		default:
+			return true
+		}
+		for i, s := range list {
+			es, ok := s.(*ast.ExprStmt)
+			if !ok {
+				continue
+			}
+			c, ok := es.X.(*ast.CallExpr)
+			if !ok || p.calleeOf(c) != "(*serverConn).writeReset" || len(c.Args) != 2 {
+				continue
+			}
+			idc, ok := c.Args[0].(*ast.CallExpr)
+			if !ok || p.calleeOf(idc) != "(*Stream).ID" {
+				continue
+			}
+			recv := p.text(idc.Fun.(*ast.SelectorExpr).X)
+			resets++
+			closedAfter := false
+			for j, t := range list {
+				if j == i {
+					continue
+				}
+				if es2, ok := t.(*ast.ExprStmt); ok {
+					if c2, ok := es2.X.(*ast.CallExpr); ok && p.calleeOf(c2) == "(*Stream).SetState" && p.text(c2.Fun.(*ast.SelectorExpr).X) == recv && p.text(c2.Args[0]) == "StreamStateClosed" {
+						closedAfter = true
+					}
+				}
+			}
+			// or the stream was closed just before (implicit close of an older idle stream)
+			for _, t := range list[:i] {
+				if es2, ok := t.(*ast.ExprStmt); ok {
+					if c2, ok := es2.X.(*ast.CallExpr); ok && p.text(c2.Fun) == "closeStream" && len(c2.Args) == 1 && p.text(c2.Args[0]) == recv {
+						closedAfter = true
+					}
+				}
+			}
+			r.check(closedAfter, "stream reset by the loop is closed ("+p.text(c.Args[1])+")", p.pos(c.Pos()), "writeReset(x.ID(), ...) ; x.SetState(Closed)",
+				"the stream loop sends RST_STREAM("+p.text(c.Args[1])+") for "+recv+" but does not mark it closed in the same block: the stream stays in the table, half-closed and never answered, and keeps its concurrency slot")
+		}
+		return true
+	})
+	if resets < 2 {
+		r.bad("stream loop closes the streams it resets", p.pos(fd.Pos()), fmt.Sprintf("only %d reset sites found in the stream loop", resets))
+	}
 	if sites < 2 {
 		r.bad("stream loop closes finished streams", p.pos(fd.Pos()), fmt.Sprintf("only %d completion sites found in the stream loop (handler report and resume branch expected)", sites))
 	}
@@ -482,7 +538,8 @@ func ruleRequestMapping(p *Prog, r *Out) {
 		case *ast.IfStmt:
 			for _, a := range conjuncts(x.Cond, true) {
 				if c, ok := p.canonCmp(a.Cond, nil); ok && c.Op == "le" && a.Val {
-					if c.L.eq(Lin{T: map[string]int64{"sc.maxHeaderList": 1, "strm.headerListSize": -1}, C: 1}) && isRejectingBody(p, x.Body) {
+					if c.L.eq(Lin{T: map[string]int64{"sc.maxHeaderList": 1, "strm.headerListSize": -1}, C: 1}) && isRejectingBody(p, x.Body) &&
+						p.isConjunctionOf(x.Cond, "sc.maxHeaderList>0", "strm.headerListSize>sc.maxHeaderList") {
 						limOK = true
 					}
 				}
@@ -491,7 +548,7 @@ func ruleRequestMapping(p *Prog, r *Out) {
 		return true
 	})
 	r.check(accOK, "header list size counts name+value+32", pos, "headerListSize += len(k)+len(v)+32", "the running header-list size is no longer increased by len(name)+len(value)+32 per field (RFC 7540 s6.5.2): MaxHeaderListSize is enforced against a wrong total")
-	r.check(limOK, "header list limit is strict", pos, "headerListSize > maxHeaderList rejects", "the header-list limit no longer rejects exactly when the size exceeds MaxHeaderListSize")
+	r.check(limOK, "header list limit is strict", pos, "maxHeaderList > 0 && headerListSize > maxHeaderList rejects", "the header-list limit no longer rejects exactly when a limit is set and the size exceeds it")
 	// carry-over condition
 	carry := false
 	ast.Inspect(hd.Body, func(n ast.Node) bool {
